@@ -341,7 +341,7 @@ def self_write_cases():
 
 class C05(Check):
     pid = "C05"
-    props = ["C05_operators.v"]
+    props = ["C05_operators.v", "C05_late_read.v"]
     rule = ("one operator per program: every unary/binary operator, `is`, ++/--, short-circuit probes with a side-effecting or "
             "failing right operand, over a palette of 41 representative values of all 10 kinds (zero, -0, fractions, 2^53+1, "
             "1e19, 1e300, 5e-324, inf, nan, numeric/non-numeric/empty/blank strings, booleans, null, unset, containers, regexes, "
